@@ -1095,7 +1095,8 @@ class Interp:
                 continue
             t = self.domain.truth(r.value)
             if t == "TF" and os.environ.get("TTSA_TRACE_FORKS"):
-                print("FORK", fr.name, getattr(test, "lineno", "?"), norm(test)[:80], "value", str(r.value)[:160], "operands", [str(x.value)[:100] for n_ in ast.walk(test) if isinstance(n_, ast.Name) for x in self.eval(n_, r.state, fr)])
+                print("FORK", fr.name, getattr(test, "lineno", "?"), norm(test)[:80], "value", str(r.value)[:160], "operands", [str(x.value)[:100] for n_ in ast.walk(test) if isinstance(n_, ast.Name) for x in self.eval(n_, r.state, fr)],
+                      "parts", [str(x.value)[:200] for n_ in (list(getattr(test, "comparators", [])) + ([test.operand] if isinstance(test, ast.UnaryOp) else [])) for x in self.eval(n_, r.state, fr)][:3] if os.environ.get("TTSA_TRACE_FORKS") == "2" else "")
             if t in ("T", "TF"):
                 s2 = self.refine(test, r.state, fr, True)
                 if s2 is not None:
